@@ -122,3 +122,10 @@ package momentum
 //@ ensures[C03] consumed(c) == len(c)
 //@ use nlast_hold(res(TripleRsiStrategy_Compute), len(res(TripleRsiStrategy_Compute)) - len(arg(ActionsToAnnotations, 0, 0)), len(res(TripleRsiStrategy_Compute)) - len(arg(ActionsToAnnotations, 0, 0)))
 //@ use nlast_skip(res(TripleRsiStrategy_Compute), arg(ActionsToAnnotations, 0, 0), len(res(TripleRsiStrategy_Compute)) - len(arg(ActionsToAnnotations, 0, 0)))
+
+// ---- generated by /verif/tools/gentypeinv.py: admissible configurations and warm-up of the strategy types ----
+//@ typeinv AwesomeOscillatorStrategy :: a.AwesomeOscillator.ShortSma.Period >= 1 && a.AwesomeOscillator.ShortSma.Period <= a.AwesomeOscillator.LongSma.Period && warmup(self) == (a.AwesomeOscillator.IdlePeriod())
+//@ typeinv RsiStrategy :: r.Rsi.Rma.Period >= 1 && warmup(self) == (r.Rsi.IdlePeriod())
+//@ typeinv StochasticRsiStrategy :: s.StochasticRsi.Rsi.Rma.Period >= 1 && s.StochasticRsi.Min.Period >= 1 && s.StochasticRsi.Max.Period == s.StochasticRsi.Min.Period && warmup(self) == (s.StochasticRsi.IdlePeriod())
+//@ typeinv TripleRsiStrategy :: t.Rsi.Rma.Period >= 1 && t.Sma.Period >= 1 && t.Sma.IdlePeriod() >= t.Rsi.IdlePeriod() && t.DownDays >= 1 && warmup(self) == (t.IdlePeriod())
+// ---- end generated typeinv ----
